@@ -23,6 +23,11 @@ Next == /\ l <= TraceLen
                 /\ Check(e.paused = e.below, l, "watcher pause state differs from the last decision")
                 /\ Check(e.below = (e.exp = "below"), l, "watcher decision differs from the setting against the real volume")
                 /\ UNCHANGED last
+           ELSE IF e.ev = "cfg"
+           THEN \* the threshold is "the operator's --min-space-required when given": what the crawler takes as the setting is
+                \* what was given (milli-GiB; 0 = not given)
+                /\ Check(e.effective_milli = e.given_milli, l, "the operator's --min-space-required is not the setting the crawler uses: " \o e.text)
+                /\ UNCHANGED last
            ELSE UNCHANGED last
         /\ l' = l + 1
 
